@@ -156,7 +156,16 @@ func (r *daemonRig) startBus(dbusBin string) error {
 	if !waitFor(func() bool { _, err := os.Stat(r.busSock); return err == nil }, 10*time.Second) {
 		return fmt.Errorf("private bus socket did not appear")
 	}
-	conn, err := dbus.Dial("unix:path=" + r.busSock)
+	// (the socket file exists a moment before the bus listens on it: on a loaded machine the
+	// first dial can be refused)
+	var conn *dbus.Conn
+	var err error
+	for try := 0; try < 200; try++ {
+		if conn, err = dbus.Dial("unix:path=" + r.busSock); err == nil {
+			break
+		}
+		time.Sleep(50 * time.Millisecond)
+	}
 	if err != nil {
 		return err
 	}
